@@ -158,6 +158,7 @@ func CmdCheck(args []string) int {
 	var samples []map[string]interface{}
 	var under []string
 	notes := map[string]bool{}
+	deadCovers := map[string][]string{}
 	for _, v := range vcs {
 		under = append(under, v.name)
 		for n := range v.notes {
@@ -183,15 +184,7 @@ func CmdCheck(args []string) int {
 					nCovReach++
 				}
 				if o.Status == "refuted" {
-					// unreachable exit / contradictory precondition: vacuity
-					if fd, ok := open[o.Name]; ok {
-						fmt.Printf("KNOWN-FINDING: property=%s %s\n", *prop, fd.What)
-						knownHit = append(knownHit, o.Name)
-						continue
-					}
-					violations++
-					rp := writeReplay(*verifDir, *prop, o.Name, "vacuity guard failed: this point is unreachable under the contract (dead code or contradictory precondition)\nsolver: "+o.Solver)
-					fmt.Printf("VIOLATION property=%s replay=%s no-failing-input-found\n", *prop, rp)
+					deadCovers[v.name] = append(deadCovers[v.name], o.Name)
 				}
 				continue
 			}
@@ -229,6 +222,37 @@ func CmdCheck(args []string) int {
 			}
 		}
 	}
+	// vacuity: a function none of whose exits is reachable, or whose entry is
+	// unreachable, proves nothing
+	var deadExits []string
+	for _, v := range vcs {
+		nRet, nDead, entryDead := 0, 0, false
+		for _, o := range v.obls {
+			if !o.Cover {
+				continue
+			}
+			if strings.HasSuffix(o.Name, "/cover/entry") || strings.HasSuffix(o.Name, "/cover/requires") {
+				entryDead = o.Status == "refuted"
+				continue
+			}
+			nRet++
+			if o.Status == "refuted" {
+				nDead++
+				deadExits = append(deadExits, o.Name)
+			}
+		}
+		if entryDead || (nRet > 0 && nDead == nRet) {
+			name := v.name + "/vacuous"
+			if fd, ok := open[name]; ok {
+				fmt.Printf("KNOWN-FINDING: property=%s %s\n", *prop, fd.What)
+				knownHit = append(knownHit, name)
+				continue
+			}
+			violations++
+			rp := writeReplay(*verifDir, *prop, name, "vacuity guard failed: the precondition is contradictory or no exit of the function is reachable under the contracts in force")
+			fmt.Printf("VIOLATION property=%s replay=%s no-failing-input-found\n", *prop, rp)
+		}
+	}
 	if nObl == 0 && violations == 0 {
 		return fail("no obligations were generated (vacuous check)")
 	}
@@ -243,6 +267,7 @@ func CmdCheck(args []string) int {
 		"solver_time_s":            round3(totalSecs(stats)),
 		"covers":                   map[string]int{"n": nCov, "reachable": nCovReach, "inconclusive": nCov - nCovReach},
 		"undecided":                undecided,
+		"dead_exits":               deadExits,
 		"unsupported":              unsupported,
 		"known_findings_hit":       knownHit,
 		"abstracted":               pick(notes, "abstracted:"),
